@@ -105,7 +105,7 @@ package proxy
 //@ guards ReplicationStreamObserver.streamGrowLock: !streamActive
 //@ contract (*ReplicationStreamObserver).ReportStreamValue
 //@   shape sig=(s *ReplicationStreamObserver)(idx int32,value int32)();loops=;lits=0;fv=
-//@   props C20 C07
+//@   props C20 C07 C06
 //@   requires s.wf()
 //@   ensures  @wf: s.wf()
 //@   ensures  @unlocked: !held(s.streamGrowLock)
@@ -1047,6 +1047,9 @@ package proxy
 //@   checkgo
 //@   requires f.adminClient != nil && f.targetStreamServer != nil
 //@   ensures @outgoing_context_cancelled: f.cancelled
+// seed C06-11: the upstream stream lives in the initiator's stream context (so the initiator going away ends it even
+// while the ack relay is blocked in Send), not in some longer-lived context
+//@   callpre NewOutgoingContext: @bound_to_the_initiator: $0 == f.targetStreamServer.Context()
 
 // The listener goroutine: closes its channel on exit, so a relay loop blocked on it wakes up.
 //@ extern (recvable).Recv(r)
